@@ -484,6 +484,20 @@ type Clause struct {
 	Needs []string // iterinv: the other iteration invariants its preservation proof may use ("-" = none); nil = all
 }
 
+// Lemma: a statement about spec functions proved once (optionally by induction over one
+// integer variable, with the other variables fixed).  A lemma named like an axiom is the
+// proof of that axiom; helper lemmas are visible to the lemmas stated after them.
+type Lemma struct {
+	Prop, Label string
+	Var         string // induction variable ("" = no induction)
+	Down        bool   // induction runs downwards from From
+	From        SExpr
+	Q           *SQuant
+	Src         string
+	Pkg, File   string
+	Ord         int
+}
+
 type LoopSpec struct {
 	Key        string // "1", "EachBin.1" …
 	Invariants []Clause
@@ -569,6 +583,7 @@ type PkgContracts struct {
 	Specs   map[string]*SpecFunc
 	Axioms  []Clause
 	Lemmas  []Clause
+	LemmaList []*Lemma
 	Types   map[string]*TypeSpec
 	Sorts   []string
 	Imports map[string]string // alias -> package path, for assumed files
@@ -579,6 +594,7 @@ type GhostVar struct{ Name, Type, Pkg string }
 type ContractDB struct {
 	Ghosts  []GhostVar
 	Guarded map[string]string // "<pkgpath>.<Type>.<field>": accessed only with a mutex of the same object held
+	lemmaN  int
 	Externs map[string]map[string]*FuncContract // package path -> key -> contract
 	Pkgs    map[string]*PkgContracts // by package path
 	Funcs   map[string]*FuncContract // all, by key
@@ -801,12 +817,50 @@ func (db *ContractDB) parseFile(pkgPath, file, src string) error {
 			db.Axioms = append(db.Axioms, c)
 			pc.Axioms = append(pc.Axioms, c)
 		case "lemma":
-			c, err := parseClause(rest, fmt.Sprintf("lemma%d", len(pc.Lemmas)+1))
+			// lemma <Cxx> <label> [by induction on <v> up|down from <expr>]: forall ... :: body
+			i := strings.Index(rest, ": forall")
+			if i < 0 {
+				return fail(fmt.Errorf("lemma <property> <label> [by induction on v up|down from e]: forall ... :: body"))
+			}
+			head, body := strings.Fields(rest[:i]), strings.TrimSpace(rest[i+1:])
+			if len(head) < 2 {
+				return fail(fmt.Errorf("lemma needs a property and a label"))
+			}
+			e, err := parseSpecExpr(body)
 			if err != nil {
 				return fail(err)
 			}
-			pc.Lemmas = append(pc.Lemmas, c)
-			db.Lemmas[pkgPath] = append(db.Lemmas[pkgPath], c)
+			q, ok := e.(*SQuant)
+			if !ok || !q.Forall {
+				return fail(fmt.Errorf("lemma body must be a forall"))
+			}
+			db.lemmaN++
+			lm := &Lemma{Prop: head[0], Label: head[1], Q: q, Src: body, Pkg: pkgPath, File: file, Ord: db.lemmaN}
+			if len(head) > 2 {
+				// by induction on v up from e
+				if len(head) < 8 || head[2] != "by" || head[3] != "induction" || head[4] != "on" || (head[6] != "up" && head[6] != "down") || head[7] != "from" {
+					return fail(fmt.Errorf("expected: by induction on <v> up|down from <expr>"))
+				}
+				lm.Var, lm.Down = head[5], head[6] == "down"
+				fe, err := parseSpecExpr(strings.Join(head[8:], " "))
+				if err != nil {
+					return fail(err)
+				}
+				lm.From = fe
+				found := false
+				for _, v := range q.Vars {
+					found = found || v.Name == lm.Var
+				}
+				if !found {
+					return fail(fmt.Errorf("induction variable %s is not quantified", lm.Var))
+				}
+			}
+			for _, a := range pc.Axioms {
+				if a.Label == lm.Label && strings.Join(strings.Fields(a.Src), " ") != strings.Join(strings.Fields(body), " ") {
+					return fail(fmt.Errorf("lemma %s proves the axiom of the same name: the two statements must be identical", lm.Label))
+				}
+			}
+			pc.LemmaList = append(pc.LemmaList, lm)
 		case "property":
 			if curF != nil {
 				curF.Props = append(curF.Props, strings.Fields(rest)...)
